@@ -57,6 +57,7 @@ func workPar(tier string, seed uint64, worker int, budget float64, maxRuns int, 
 		if time.Since(start).Seconds() > budget {
 			break
 		}
+		noteProgress("C13", "B", tier, seed, worker, run, "")
 		res := parsim.RunSession(seed, tier, worker, run, log, sched)
 		o.Runs++
 		o.Ops += res.Ops
